@@ -73,6 +73,9 @@ impl Args {
             }
             i += 2;
         }
+        // horizon of the engines that have no per-case watchdog (par::run_simple)
+        let limit = std::env::var("VERIF_PARTITION_LIMIT_S").ok().and_then(|s| s.parse().ok()).unwrap_or(if a.tier == "thorough" { 2400 } else { 420 });
+        crate::par::set_simple_limit(limit);
         a
     }
     pub fn thorough(&self) -> bool {
